@@ -189,7 +189,8 @@ RExc(st0, t, kind) ==
          [s1 EXCEPT !.after[t] = "CLOSED", !.pc[t] = CloseEntry]
     [] kind = "ws" ->
          [st EXCEPT !.code = ErrCode, !.after[t] = "ERROR", !.pc[t] = CloseEntry]
-    [] OTHER ->   \* "conn": server `except Exception`; client `except ClientError`
+    [] OTHER ->   \* "conn": server `except Exception`; client `except ClientError` (no environment action of
+                  \* this model produces it any more: connection_lost ends in feed_eof() on both sides)
          IF Side = "server"
          THEN [CancelHb(st) EXCEPT !.exc = TRUE, !.closing = TRUE, !.code = 1006,
                                    !.after[t] = "ERROR", !.pc[t] = "c.top"]
@@ -308,7 +309,9 @@ Run(st, t) == IF st.cpu = t THEN Run(Block(st, t), t) ELSE st
 Wake(st0, t, o) ==
   LET isTmo == st0.tmo[t] = "fired" /\ ~st0.xc[t]     \* Timeout.__aexit__: TimeoutError iff no other cancel request
       st == [st0 EXCEPT !.xc[t] = FALSE]
-      dropW == IF st.rw = t THEN [st EXCEPT !.rw = "none"] ELSE st    \* except: self._waiter = None
+      \* read(): except (CancelledError, TimeoutError): self._waiter = None  - unconditional: with two closers
+      \* and a cancelled receiver this clears the waiter of ANOTHER task, which then misses its wake-up
+      dropW == [st EXCEPT !.rw = "none"]
   IN
   CASE st.pc[t] = "spawned" ->
          IF o = "cancel" THEN [st EXCEPT !.pc[t] = "done", !.cpu = "none"]     \* the coroutine never starts
